@@ -62,7 +62,7 @@ public:
 
   double pProb(double x) const
   {
-    return (x <= min_) ? 0 : (x - min_) / (max_ - min_);
+    return (x <= min_) ? 0 : ((x >= max_) ? 1 : (x - min_) / (max_ - min_));
   }
 
   double Expectation(double a) const
